@@ -249,7 +249,7 @@ def check_s3(chk, m, K):
                        "; ".join(problems) + (": the node would be linked into two lists (or twice into one) and share one next pointer"
                                               if problems else "") if problems else
                        "evidence on this path that the fibre is on neither queue", e.inst.loc, f.name)
-    chk.expect("S3", "queue insertions on paths", n_sites, 3)
+    chk.expect("S3", "queue insertions on paths", n_sites, 2)    # at least: one into the run queue, one into the timer queue
 
 
 def check_s4_s6(chk, m, K):
